@@ -136,7 +136,7 @@ impl Property for C17 {
         }
     }
     fn rule(&self) -> &'static str {
-        "generated sources of 3..9 unformatted top-level items (functions whose statements stand on their own lines, structs, enums, constants, imports; outer attributes and doc comments that rustfmt would re-lay out; comments and blank lines in between) x 0..3 line ranges (aligned with items, cutting through functions, adjacent, overlapping, nested, empty list, past the end), formatted as standard input with --file-lines semantics through the API; oracle (spans from an independent parse of the input): every item that does not intersect the union of the ranges appears byte for byte, in order; every statement of an intersecting function that does not itself intersect appears byte for byte; a fully selected item equals its text in the unrestricted output; an empty selection returns the input unchanged; a range set and its merged union give identical output; with an empty selection no width/whitespace diagnostic is reported, and no such diagnostic ever points into an unselected item; one case in forty puts the source into an out-of-line module of a root given to the real binary by path, the selection naming the module's file, the root's file or both: every file must equal what its own text gives under its own ranges; non-trivial = at least one item selected and one unformatted item unselected; distinct by case content"
+        "generated sources of 3..9 unformatted top-level items (functions whose statements stand on their own lines, structs, enums, constants, imports; outer attributes and doc comments that rustfmt would re-lay out; comments and blank lines in between) x 0..3 line ranges (aligned with items, cutting through functions, adjacent, overlapping, nested, empty list, empty ranges whose end lies before their start, past the end), formatted as standard input with --file-lines semantics through the API; oracle (spans from an independent parse of the input): every item that does not intersect the union of the ranges appears byte for byte, in order; every statement of an intersecting function that does not itself intersect appears byte for byte; a fully selected item equals its text in the unrestricted output; an empty selection returns the input unchanged; a range set and its merged union give identical output; with an empty selection no width/whitespace diagnostic is reported, and no such diagnostic ever points into an unselected item; one case in forty puts the source into an out-of-line module of a root given to the real binary by path, the selection naming the module's file, the root's file or both: every file must equal what its own text gives under its own ranges; non-trivial = at least one item selected and one unformatted item unselected; distinct by case content"
     }
     fn generate(&self, c: &mut Choices<'_>, _g: &GenCtx) -> Value {
         let n = 3 + c.below(7);
@@ -185,6 +185,11 @@ impl Property for C17 {
                 _ => (a, b),
             };
         }
+        if c.chance(1, 6) {
+            // an empty range (end before start), alone or next to real ranges
+            let a = 2 + c.below(total_lines + 1);
+            ranges.push((a + c.below(3), a - 1));
+        }
         let overflow = c.chance(1, 4);
         // one case in forty: the same source as an out-of-line module of a root given by path, the
         // selection naming the module's file (or the root's)
@@ -205,6 +210,9 @@ impl Property for C17 {
         }
         let mut opts = base.clone();
         opts.push(("file_lines".into(), ranges_json(&ranges)));
+        // a range whose end lies before its start is empty: it selects nothing
+        let given = ranges.clone();
+        let ranges: Vec<(usize, usize)> = given.iter().copied().filter(|(a, b)| a <= b).collect();
         let full = format_text(src, &base);
         if !full.emitted() {
             return Outcome::skip("unrestricted-run-fails");
@@ -216,6 +224,9 @@ impl Property for C17 {
         let judge_known = case["judge_known"].as_bool().unwrap_or(false);
         let mut o = Outcome::pass();
         o.labels.push(format!("ranges:{}", ranges.len()));
+        if given.len() != ranges.len() {
+            o.labels.push("with-empty-range".into());
+        }
         let fail = |class: &str, msg: String| -> Outcome { Outcome::fail(class.to_string(), format!("{msg}\nranges {ranges:?}\n--- input ---\n{src}\n--- output ---\n{}", out.text)).nontrivial(true) };
         // empty selection: nothing changes, nothing is reported
         if ranges.is_empty() {
@@ -232,7 +243,7 @@ impl Property for C17 {
         }
         // union behaves like the ranges
         let merged = merge(&ranges);
-        if merged != ranges {
+        if merged != given {
             let mut o2 = base.clone();
             o2.push(("file_lines".into(), ranges_json(&merged)));
             let m = format_text(src, &o2);
